@@ -1,6 +1,7 @@
 from datetime import datetime, timezone
 from typing import Any, TYPE_CHECKING
 from functools import lru_cache
+from numbers import Number
 
 from dliswriter.utils.internal.internal_enums import RepresentationCode
 
@@ -148,7 +149,20 @@ _struct_dict = {
 }
 
 
-@lru_cache(maxsize=65536)
+def _write_struct(representation_code: RepresentationCode, value: Any) -> bytes:
+    """Convert a value to bytes according to the RP66 V1 spec (see write_struct)."""
+
+    func = _struct_dict.get(representation_code, None)  # get a converter corresponding to the repr code
+    if func:
+        return func(value)  # type: ignore  # that's the point, we're calling for any type
+
+    return representation_code.convert(value)  # if no converter was found, use the one built in the enum
+
+
+# typed: 1, 1.0 and True are equal (and hash equally), but are not written the same way for all repr codes
+_write_struct_cached = lru_cache(maxsize=65536, typed=True)(_write_struct)
+
+
 def write_struct(representation_code: RepresentationCode, value: Any) -> bytes:
     """Convert a value to bytes according to the RP66 V1 spec.
 
@@ -160,8 +174,8 @@ def write_struct(representation_code: RepresentationCode, value: Any) -> bytes:
         Value converted to bytes depending on representation_code and RP66 V1 spec.
     """
 
-    func = _struct_dict.get(representation_code, None)  # get a converter corresponding to the repr code
-    if func:
-        return func(value)  # type: ignore  # that's the point, we're calling for any type
+    if isinstance(value, Number) and value == 0:
+        # 0.0 == -0.0, but the two are written differently; zeros are kept out of the cache
+        return _write_struct(representation_code, value)
 
-    return representation_code.convert(value)  # if no converter was found, use the one built in the enum
+    return _write_struct_cached(representation_code, value)
